@@ -427,27 +427,30 @@ with reports.handle_reports(report_handler):
     need(len(pre_exits) == 2 and all(src(n) == "sys.exit(1)" for n in pre_exits), f"main_cli: exits before the assembly changed: {[src(n) for n in pre_exits]}")
     post = tr.body[2:]
     io_handlers = [h for st in post for n in ast.walk(st) if isinstance(n, ast.Try) for h in n.handlers]
-    need(len(io_handlers) == 2 and all(src(h.type) == "IOError" and src(h.body[-1]) == "sys.exit(1)" for h in io_handlers),
-         "main_cli: the IOError handlers of the -o / listing writes changed")
+    need(sorted(src(h.type) for h in io_handlers) == ["IOError", "IOError", "struct.error"] and all(src(h.body[-1]) == "sys.exit(1)" for h in io_handlers),
+         "main_cli: the handlers of the -o / listing writes (struct.error, IOError, IOError -> exit 1) changed")
     post_exits = [n for st in post for n in ast.walk(st) if isinstance(n, ast.Call) and src(n.func) == "sys.exit"]
-    need(len(post_exits) == 2, "main_cli: further exits after the two blocks")
+    need(len(post_exits) == 3, "main_cli: further exits after the two blocks")
     # emit_files: one write per make_* file inside the second block, IOError -> reports.error('io-error'), loop continues
-    efsrc = [src(x) for x in ef.body]
     loop = [x for x in ef.body if isinstance(x, ast.For)]
-    need(len(loop) == 1 and len(loop[0].body) == 2 and isinstance(loop[0].body[1], ast.Try), "Compiler.emit_files: loop shape changed")
-    t = loop[0].body[1]
-    need(len(t.handlers) == 1 and src(t.handlers[0].type) == "IOError" and src(t.handlers[0].body[0].value.func) == "reports.error"
-         and src(t.handlers[0].body[0].value.args[0]) == "'io-error'" and len(t.handlers[0].body) == 1,
-         "Compiler.emit_files: the IOError handler no longer reports io-error and continues")
+    need(len(loop) == 1, "Compiler.emit_files: loop shape changed")
+    ef_ids = []
+    for n in ast.walk(loop[0]):
+        if isinstance(n, ast.ExceptHandler):
+            need(isinstance(n.body[0], ast.Expr) and isinstance(n.body[0].value, ast.Call) and src(n.body[0].value.func) == "reports.error"
+                 and all(isinstance(x, ast.Continue) for x in n.body[1:]),
+                 "Compiler.emit_files: an exception handler does something else than reports.error(...) [; continue]")
+            ef_ids.append(const_str(n.body[0].value.args[0], "emit_files report identifier"))
+    need("io-error" in ef_ids, "Compiler.emit_files no longer reports io-error for a failed write")
     out += ("\n(* main_cli, checked structure: [unknown charset -> exit 1] [unreadable source -> exit 1]\n"
             "   try: with handle_reports(h): parse+compile;\n"
-            "        with handle_reports(h): emit_files  -- writes every make_* file HERE, IOError -> reports.error \"io-error\" and goes on;\n"
-            "        then the -o / --implicit-bin file and the listing are written, IOError -> exit 1 without a report;\n"
+            "        with handle_reports(h): emit_files  -- writes every make_* file HERE, a failed write -> reports.error and goes on to the next file;\n"
+            "        then the -o / --implicit-bin file and the listing are written, struct.error / IOError -> exit 1 without a report;\n"
             "   except UnrecoverableError: exit 1; except Exception: exit 1 *)\n"
             "Definition cli_blocks_before_output : nat := 2.\n"
             "Definition cli_exit_on_unrecoverable : Z := 1%Z.\nDefinition cli_exit_on_internal_error : Z := 1%Z.\n"
             "Definition cli_exit_on_write_error : Z := 1%Z.\nDefinition cli_exit_before_assembly : Z := 1%Z.\n"
-            "Definition emit_files_error_id : string := \"io-error\".\n")
+            "Definition emit_files_error_ids : list string := [" + "; ".join(coq_string(x) for x in ef_ids) + "].\n")
     return out
 
 
